@@ -35,6 +35,16 @@ func main() {
 		hlog.FromRequest(r).Info().Msg("req")
 		w.Write([]byte("ok"))
 	})
+	// every field handler, one instance each, shared by all requests (as in a real server): anything a handler keeps
+	// between its steps must be per request
+	h = hlog.HostHandler("host")(h)
+	h = hlog.HostHandler("hostnp", true)(h)
+	h = hlog.RemoteIPHandler("rip")(h)
+	h = hlog.RefererHandler("ref")(h)
+	h = hlog.ProtoHandler("proto")(h)
+	h = hlog.HTTPVersionHandler("hv")(h)
+	h = hlog.RequestHandler("rq")(h)
+	h = hlog.CustomHeaderHandler("cust", "X-Custom")(h)
 	h = hlog.UserAgentHandler("ua")(h)
 	h = hlog.RemoteAddrHandler("ip")(h)
 	h = hlog.MethodHandler("method")(h)
@@ -51,6 +61,9 @@ func main() {
 			r := httptest.NewRequest("GET", fmt.Sprintf("/p/%d", i), nil)
 			r.RemoteAddr = fmt.Sprintf("10.1.%d.%d:99", i/250, i%250)
 			r.Header.Set("User-Agent", fmt.Sprintf("ua-%d", i))
+			r.Header.Set("Referer", fmt.Sprintf("http://ref/%d", i))
+			r.Header.Set("X-Custom", fmt.Sprintf("c-%d", i))
+			r.Host = fmt.Sprintf("h%d.example:8%03d", i, i)
 			h.ServeHTTP(httptest.NewRecorder(), r)
 		}(i)
 	}
@@ -65,7 +78,10 @@ func main() {
 		}
 		var i int
 		fmt.Sscanf(fmt.Sprint(m["url"]), "/p/%d", &i)
-		if m["ua"] != fmt.Sprintf("ua-%d", i) || m["ip"] != fmt.Sprintf("10.1.%d.%d:99", i/250, i%250) || m["base"] != "b" {
+		if m["ua"] != fmt.Sprintf("ua-%d", i) || m["ip"] != fmt.Sprintf("10.1.%d.%d:99", i/250, i%250) || m["base"] != "b" ||
+			m["host"] != fmt.Sprintf("h%d.example:8%03d", i, i) || m["hostnp"] != fmt.Sprintf("h%d.example", i) ||
+			m["rip"] != fmt.Sprintf("10.1.%d.%d", i/250, i%250) || m["ref"] != fmt.Sprintf("http://ref/%d", i) ||
+			m["cust"] != fmt.Sprintf("c-%d", i) || m["rq"] != fmt.Sprintf("GET /p/%d", i) || m["proto"] != "HTTP/1.1" || m["hv"] != "1.1" {
 			bad = append(bad, "request mixes values: "+ln)
 		}
 		id := fmt.Sprint(m["req_id"])
